@@ -53,6 +53,7 @@ type node struct {
 	wid      int // id of the private recording writer
 	addStyle bool
 	skipKids map[int]*node
+	tsSeen   string // how the probe instant was printed last, while the logger's time style is not known to the model
 }
 
 type world struct {
@@ -346,7 +347,8 @@ func (w *world) probe(n *node) {
 	}
 	slog.SetFlags(vlib.BaseFlags)
 	// timestamp zone and layout through an explicit instant
-	if n.level != slog.OffLevel && n.format != fColor && n.utc >= 0 && n.layout != "?" {
+	if n.level != slog.OffLevel && n.format != fColor {
+		known := n.utc >= 0 && n.layout != "?"
 		ts := time.Date(2024, 3, 9, 22, 30, 15, 123456789, time.FixedZone("", 5*3600+1800))
 		before := w.log.Len()
 		n.lg.(slog.LogSlogAware).WriteThru(context.Background(), slog.AlwaysLevel, ts, 0, "ts probe", nil)
@@ -370,7 +372,16 @@ func (w *world) probe(n *node) {
 			} else if pairs, err := vlib.ParseLogfmtRecord(e.Payload); err == nil && len(pairs) > 0 {
 				got = pairs[0].Str
 			}
-			if got != want.Format(layout) {
+			switch {
+			case !known:
+				// the time style this logger started with is not stated - but it is ITS style: the same instant reads the
+				// same until one of its own Set calls changes that, whatever happens to other loggers meanwhile
+				if n.tsSeen != "" && got != n.tsSeen {
+					w.discrep("C10/isolation", "logger #%d %q: the same instant was printed as %q before and is printed as %q now, and none of its own time settings was changed in between", n.id, n.name, n.tsSeen, got)
+				}
+				n.tsSeen = got
+				w.labels["time-style-of-a-new-child-watched"] = true
+			case got != want.Format(layout):
 				w.discrep("C10/isolation", "logger #%d %q (utc mode %d, layout %q): timestamp %q, want %q", n.id, n.name, n.utc, n.layout, got, want.Format(layout))
 			}
 		}
@@ -542,6 +553,7 @@ func (w *world) applyModel(n *node, s setting) {
 			n.format = fLogfmt
 		}
 	case "utc":
+		n.tsSeen = ""
 		n.utc = 2
 		for _, b := range s.bools {
 			if b {
@@ -551,6 +563,7 @@ func (w *world) applyModel(n *node, s setting) {
 			}
 		}
 	case "timeformat":
+		n.tsSeen = ""
 		n.layout = "?" // which layout a call without any selects no statement says: unknown until one is given
 		for _, l := range s.layout {
 			if l != "" {
